@@ -3,6 +3,7 @@ package vkit
 import (
 	"fmt"
 	"math"
+	"reflect"
 	"strconv"
 
 	"github.com/ctessum/geom"
@@ -302,10 +303,82 @@ func (g GJ) NumVertices() int { return len(g.Flatten()) }
 
 // SharedGeom builds the geometry with ALL its point lists cut out of one flat array as consecutive two-index
 // sub-slices (`flat[a:b]`, `flat[b:c]`, ...), the way a caller that decoded its coordinates into one buffer holds them:
-// every list has spare capacity, and the element just past its end is the first vertex of the next list. It returns the
-// geometry and a function that reports whether the flat array still holds the original coordinates - a library call
-// that appends to (or writes into) a list it was given changes it. Point and *Bounds values carry no slice and are
-// built as usual.
+// every list has spare capacity, and the element just past its end is the first vertex of the next list. The LISTS OF
+// LISTS are held the same way: the ring lists of the polygons of a multi-polygon are windows of one []Path array (in
+// storage order, in reverse order or rotated by one - chosen from the size of the geometry - so that the slots behind a
+// member's window belong to a member that comes earlier or later), and every ring list, line list, polygon list and
+// member list is followed by spare slots holding sentinels. It returns the geometry and a function that reports whether
+// the flat array and the header arrays still hold what they were given - a library call that appends to (or writes
+// into) a list it was given changes them. Point and *Bounds values carry no slice and are built as usual.
+
+// sharedWindows places the lists as two-index windows of ONE array (storage order given by perm: list i is the perm[i]-th
+// window), followed by as many sentinel slots as there are elements plus two, and returns the windows and a check that
+// the whole array still holds the same slice headers (data pointer and length).
+func sharedWindows[T any](lists [][]T, sentinel T, perm []int) ([][]T, func() string) {
+	total := 0
+	for _, l := range lists {
+		total += len(l)
+	}
+	arr := make([]T, 0, 2*total+2)
+	start := make([]int, len(lists))
+	order := make([]int, len(lists)) // order[k] = which list is stored k-th
+	for i, k := range perm {
+		order[k] = i
+	}
+	for _, i := range order {
+		start[i] = len(arr)
+		arr = append(arr, lists[i]...)
+	}
+	for len(arr) < cap(arr) {
+		arr = append(arr, sentinel)
+	}
+	out := make([][]T, len(lists))
+	for i, l := range lists {
+		out[i] = arr[start[i] : start[i]+len(l)]
+	}
+	type hdr struct {
+		p uintptr
+		n int
+	}
+	snap := func() []hdr {
+		h := make([]hdr, len(arr))
+		for i := range arr {
+			v := reflect.ValueOf(arr[i])
+			if v.IsValid() && v.Kind() == reflect.Slice {
+				h[i] = hdr{v.Pointer(), v.Len()}
+			} else if v.IsValid() {
+				h[i] = hdr{1, 0}
+			}
+		}
+		return h
+	}
+	orig := snap()
+	return out, func() string {
+		for i, h := range snap() {
+			if h != orig[i] {
+				return fmt.Sprintf("slot %d of the caller's array of %T (%d lists as windows of one array, %d slots) now holds another list (length %d, was %d)", i, arr, len(lists), len(arr), h.n, orig[i].n)
+			}
+		}
+		return ""
+	}
+}
+
+// storagePerm chooses the storage order of n lists from the size of the geometry: identity, reversed, or rotated by one.
+func storagePerm(n, size int) []int {
+	perm := make([]int, n)
+	for i := range perm {
+		switch size % 3 {
+		case 1:
+			perm[i] = n - 1 - i
+		case 2:
+			perm[i] = (i + 1) % n
+		default:
+			perm[i] = i
+		}
+	}
+	return perm
+}
+
 func SharedGeom(g GJ) (geom.Geom, func() string) {
 	var flat []geom.Point
 	var collect func(g GJ)
@@ -338,6 +411,8 @@ func SharedGeom(g GJ) (geom.Geom, func() string) {
 		pos += n
 		return s
 	}
+	var checks []func() string
+	sentinelPt := geom.Point{X: -4321.5, Y: 1234.25}
 	var build func(g GJ) geom.Geom
 	build = func(g GJ) geom.Geom {
 		switch g.T {
@@ -350,28 +425,42 @@ func SharedGeom(g GJ) (geom.Geom, func() string) {
 			for i, r := range g.Rings {
 				out[i] = geom.LineString(take(len(r)))
 			}
-			return out
+			w, chk := sharedWindows([][]geom.LineString{out}, geom.LineString{sentinelPt}, []int{0})
+			checks = append(checks, chk)
+			return geom.MultiLineString(w[0])
 		case "Polygon":
 			out := make(geom.Polygon, len(g.Rings))
 			for i, r := range g.Rings {
 				out[i] = take(len(r))
 			}
-			return out
+			w, chk := sharedWindows([][]geom.Path{out}, geom.Path{sentinelPt}, []int{0})
+			checks = append(checks, chk)
+			return geom.Polygon(w[0])
 		case "MultiPolygon":
-			out := make(geom.MultiPolygon, len(g.Polys))
+			lists := make([][]geom.Path, len(g.Polys))
 			for i, p := range g.Polys {
-				out[i] = make(geom.Polygon, len(p))
+				lists[i] = make([]geom.Path, len(p))
 				for j, r := range p {
-					out[i][j] = take(len(r))
+					lists[i][j] = take(len(r))
 				}
 			}
-			return out
+			w, chk := sharedWindows(lists, geom.Path{sentinelPt}, storagePerm(len(lists), len(flat)))
+			checks = append(checks, chk)
+			out := make([]geom.Polygon, len(w))
+			for i := range w {
+				out[i] = geom.Polygon(w[i])
+			}
+			w2, chk2 := sharedWindows([][]geom.Polygon{out}, geom.Polygon{{sentinelPt}}, []int{0})
+			checks = append(checks, chk2)
+			return geom.MultiPolygon(w2[0])
 		case "GeometryCollection":
-			out := make(geom.GeometryCollection, len(g.Geoms))
+			out := make([]geom.Geom, len(g.Geoms))
 			for i, m := range g.Geoms {
 				out[i] = build(m)
 			}
-			return out
+			w, chk := sharedWindows([][]geom.Geom{out}, geom.Geom(nil), []int{0})
+			checks = append(checks, chk)
+			return geom.GeometryCollection(w[0])
 		}
 		return g.Geom()
 	}
@@ -380,6 +469,11 @@ func SharedGeom(g GJ) (geom.Geom, func() string) {
 		for i := range orig {
 			if math.Float64bits(orig[i].X) != math.Float64bits(flat[i].X) || math.Float64bits(orig[i].Y) != math.Float64bits(flat[i].Y) {
 				return fmt.Sprintf("element %d of the caller's coordinate array changed from %v to %v", i, orig[i], flat[i])
+			}
+		}
+		for _, chk := range checks {
+			if m := chk(); m != "" {
+				return m
 			}
 		}
 		return ""
